@@ -52,6 +52,8 @@ def to_scenario(hist, sid, stable):
 
 
 def run(prop, tier, replay):
+    if replay:
+        return Q.replay(prop, replay, {"EvolutionPreservesOthers", "AddedValuesExact", "DroppedDataNeverResurfaces", "FieldIdsUnique", "RowsMatchSchema", "LatestUnreadable", "FailedHasNoEffect"}, trace_module="Trace_SchemaEvo")
     t0 = time.time()
     out = vlib.Outcome(prop)
     rnd = random.Random(vlib.seed())
